@@ -8,9 +8,12 @@ import (
 	"encoding/json"
 	"fmt"
 	"os"
+	"runtime"
 	"strconv"
 	"strings"
 	"sync"
+	"syscall"
+	"time"
 )
 
 type vhRec map[string]interface{}
@@ -159,4 +162,123 @@ func vhParallel(n int, items [][]byte, fn func(idx int, item []byte)) {
 	}
 	close(ch)
 	wg.Wait()
+}
+
+// ---- robustness guard (C04) ------------------------------------------------------------------------------
+
+// vhGuard runs fn (a decoder call on hostile input) and classifies what happens: "" (returned), "panic: ...",
+// "hang", "balloon: ..." (allocated far more than the input can justify). Must be used from one goroutine at a time.
+// vhGuardSlack: allocation every call of the decoder under test may need regardless of its input.
+var vhGuardSlack = 4 << 20
+
+var (
+	vhCaseN    int
+	vhOnlyCase = -2
+	vhSkipCase map[int]bool
+)
+
+// vhGuard brackets every input with begin/end records, so that a crash of the whole process (out of memory, fatal
+// runtime errors) can be attributed to the input by re-running it alone (VERIF_ONLY) and skipped afterwards (VERIF_SKIP).
+func vhGuard(inputLen int, fn func()) string {
+	if vhOnlyCase == -2 {
+		vhOnlyCase = vhEnvInt("VERIF_ONLY", -1)
+		vhSkipCase = vhSkipSet()
+		// a decoder that asks for more than 6 GiB of address space dies at once instead of dragging the machine down
+		var lim syscall.Rlimit
+		if syscall.Getrlimit(syscall.RLIMIT_AS, &lim) == nil {
+			lim.Cur = 6 << 30
+			_ = syscall.Setrlimit(syscall.RLIMIT_AS, &lim)
+		}
+	}
+	idx := vhCaseN
+	vhCaseN++
+	if (vhOnlyCase >= 0 && idx != vhOnlyCase) || vhSkipCase[idx] {
+		return ""
+	}
+	vhEmit(vhRec{"k": "begin", "idx": idx})
+	vhFlush()
+	defer vhEmit(vhRec{"k": "end", "idx": idx})
+	var before, after runtime.MemStats
+	runtime.ReadMemStats(&before)
+	done := make(chan string, 1)
+	go func() {
+		defer func() {
+			if p := recover(); p != nil {
+				done <- fmt.Sprintf("panic: %v", p)
+				return
+			}
+			done <- ""
+		}()
+		fn()
+	}()
+	select {
+	case r := <-done:
+		if r != "" {
+			return r
+		}
+	case <-time.After(5 * time.Second):
+		return "hang"
+	}
+	runtime.ReadMemStats(&after)
+	if d := after.TotalAlloc - before.TotalAlloc; d > uint64(vhGuardSlack+256*inputLen) {
+		return fmt.Sprintf("balloon: %d bytes allocated for %d bytes of input", d, inputLen)
+	}
+	return ""
+}
+
+func vhClass(p string) string {
+	switch {
+	case strings.HasPrefix(p, "panic"):
+		return "panic"
+	case strings.HasPrefix(p, "hang"):
+		return "hang"
+	case strings.HasPrefix(p, "balloon"):
+		return "balloon"
+	}
+	return "error"
+}
+
+// vhMutant: one line of Robust.tla's output.
+type vhMutantSet struct {
+	Kind    string `json:"kind"`
+	Base    []int  `json:"base"`
+	Mutants []struct {
+		At   int   `json:"at"`
+		OldW int   `json:"oldw"`
+		Head []int `json:"head"`
+	} `json:"mutants"`
+}
+
+func vhBytes(a []int) []byte {
+	o := make([]byte, len(a))
+	for i, x := range a {
+		o[i] = byte(x)
+	}
+	return o
+}
+
+// inputs: the base, every truncation of it, and every length/count mutant (each also cut right behind the changed head
+// and a few bytes later, so that the declared length is never backed by data).
+func (m vhMutantSet) inputs() (out [][]byte, notes []string) {
+	base := vhBytes(m.Base)
+	out = append(out, base)
+	notes = append(notes, "base")
+	for i := 0; i < len(base); i++ {
+		out = append(out, base[:i])
+		notes = append(notes, fmt.Sprintf("truncated at %d", i))
+	}
+	for _, mu := range m.Mutants {
+		h := vhBytes(mu.Head)
+		full := append(append(append([]byte{}, base[:mu.At-1]...), h...), base[mu.At+mu.OldW:]...)
+		out = append(out, full)
+		notes = append(notes, fmt.Sprintf("head at %d := %x", mu.At, h))
+		cut := mu.At - 1 + len(h)
+		for _, extra := range []int{0, 3} {
+			if cut+extra < len(full) {
+				out = append(out, full[:cut+extra])
+				notes = append(notes, fmt.Sprintf("head at %d := %x, cut %d bytes behind it", mu.At, h, extra))
+			}
+		}
+	}
+	return
 }
